@@ -160,4 +160,32 @@ PROPS = {
         },
         "min_distinct": {"entry.*": 85},
     },
+    "C11": {
+        "level": "exploration",
+        "rule": "cases = delivery histories: 1-4 datagrams whose stream ids differ in exactly one component (source, destination, "
+                "identification, protocol, VLAN ids, channel, IP version), payload bytes unique per (stream, offset), random 8-aligned "
+                "cuts plus consistent overlaps, delivered as real Ethernet/VLAN/IPv4|IPv6+fragment-header packets through SlicedPacket "
+                "into IpDefragPool in random order with duplicates, interleaving, returned buffers (reuse), timestamp eviction and - in "
+                "the conflict engine - unaligned / oversized / conflicting-end fragments in both arrival orders; every delivery is "
+                "judged against a sequential model (None until the union of delivered ranges covers [0,end) with end known, then the "
+                "original payload and protocol exactly once; errors for the three documented inconsistency classes); the verif_counts "
+                "hook gives active-stream and pooled-buffer counts for conservation; plus IpDefragBuf driven directly; evaluations = "
+                "deliveries judged; distinct = distinct (engine, datagram count, history length class, IP version) signatures",
+        "assumptions": COMMON_ASSUME + [
+            "the sequential model in harness/src/monitors/c11.rs is the specification of reassembly",
+            "uninitialised-memory exposure of recycled buffers is watched by Miri / memcheck on reduced histories",
+        ],
+        "runs": {
+            "quick": [dict(CHK), {"flavour": "rel", "scale": 0.5}, {"flavour": "miri", "scale": 0.0003, "budget_s": 1500}],
+            "thorough": [dict(CHK), {"flavour": "rel"}, {"flavour": "vg", "scale": 0.01, "budget_s": 7200},
+                         {"flavour": "miri", "scale": 0.0002, "budget_s": 7200}, {"flavour": "asan", "scale": 0.3}],
+        },
+        "abnormal_owner": "C11",
+        "mandatory": {
+            "histories": 10000, "deliveries.completed": 10000, "deliveries.none": 50000, "deliveries.unfragmented": 1000,
+            "duplicates_delivered": 1000, "buffers_returned": 1000, "streams_evicted": 100, "errors.unaligned": 500,
+            "errors.too_big": 500, "errors.conflicting_end": 500, "conservation_checks": 50000, "buf.completed": 100,
+            "bytes_reassembled_and_compared": 1000000,
+        },
+    },
 }
